@@ -31,6 +31,10 @@ notes = {
  "C14-f": "real background goroutines with harness-fired tickers, `Check_Lifecycle`", "C14-g": "refresh goroutine of the real Init under the access monitor", "C15-f": "caught by C03",
  "C16-e": "added `Check_OddAdds`", "C16-f": "added `Check_OddAdds`", "C16-g": "caller overwrites its slice after the copying adds", "C18-f": "validity instant of the TLS configuration", "C18-g": "CA rotation on one settings object",
  "C19-e": "second message of a stream uses another element order", "C19-f": "16-byte IPv4 form; netip markers preset", "C20-e": "repeated element in the record", "C20-f": "added `Check_QueryAfterChange`; lazily created globals no longer leak between paths",
+ "C04-i": "data sets without records added (fourth round)", "C06-h": "added `Check_RejectedRecord` (fourth round)", "C06-i": "retries already counted for the waiting flow (fourth round)",
+ "C13-h": "pair of expiry scans with a callback that fails once (fourth round)", "C13-i": "first record of a new flow lacking flowStartSeconds in the monitored operations (fourth round)",
+ "C14-h": "NOT DETECTED: a Close that returns while another closer is still closing; the pinned code has the same window without background goroutines, so the harness cannot demand more (see text)",
+ "C14-i": "NOT DETECTED: needs a write that is blocked inside the socket while the check goroutine runs; the in-memory connection has no scheduling points inside Read/Write (see text)",
  "C20-c": "out-of-range counts added", "C20-d": "float, boolean and address fields in the rendered record",
 }
 rows = []
